@@ -1,5 +1,5 @@
 (* C15 -- Instruction sets load and programs compile faithfully (model/Isa.v). *)
-From PS Require Import Base Str Sim Program Isa C15_proof.
+From PS Require Import Base Str Sim Program Isa C15_proof C15_upperkey.
 
 (* accepted: exactly one upper-cased entry per declared instruction, in table order, mapped to the
    registry's spelling of its capability *)
@@ -71,3 +71,12 @@ Theorem C15_compile_message :
                     substrb (nat_to_str line) (comp_err_msg name line) = true.
 Proof. exact C15_compile_message_lemma. Qed.
 Print Assumptions C15_compile_message.
+
+(* The repaired code (/repo 8da1782, defect D4) detects duplicate mnemonics on the UPPER-cased form, the key the
+   instruction set is stored under; the model detects them on the lower-cased form.  On the model's characters the
+   two tests coincide: the transliteration of the repaired _create_isa computes exactly Isa.create_isa, so every
+   theorem above is also a theorem about the repaired code's algorithm. *)
+Theorem C15_isa_upper_key_detection :
+  forall spec caps instrs, create_isa_upperkey spec caps instrs = create_isa spec caps instrs.
+Proof. exact create_isa_upperkey_eq_lemma. Qed.
+Print Assumptions C15_isa_upper_key_detection.
